@@ -1093,6 +1093,12 @@ class Unit:
                     text, n21 = re.subn(r'&self\.event_map\[([^\]]*?)\.\.\]', r'self.event_map.v_slice_from(\1, Tracked(w))', text)
                     self.log.add('R21(&MMAP[a..] (Deref<[u8]>) -> MMAP.v_slice_from(a, ghost world))', site, n21)
                     continue
+                m29 = re.match(r'R29\((\w+)\)$', r)
+                if m29:
+                    v = m29.group(1)
+                    text, n29 = re.subn(r'&mut\s+%s\[' % v, '&mut %s.as_mut_slice()[' % v, text)
+                    self.log.add('R29(&mut VEC[range] -> &mut VEC.as_mut_slice()[range])', site, n29)
+                    continue
                 m17 = re.match(r'R17\((\w+)\)$', r)
                 if m17:
                     text = rw_R17(text, m17.group(1), site, self.log)
@@ -1136,7 +1142,7 @@ class Unit:
             # pre/postcondition alone (no loop contracts, no hints).  Otherwise the loss is reported (undecided).
             c2 = Contract(c.file, c.path, ret=c.ret, requires=c.requires, ensures=c.ensures, decreases=c.decreases,
                           ghostparams=c.ghostparams, ghostargs=c.ghostargs, attrs=c.attrs,
-                          rewrites=[r for r in c.rewrites if r in ('R5', 'R20', 'R21', 'R23', 'R28') or r.startswith('R17')])
+                          rewrites=[r for r in c.rewrites if r in ('R5', 'R20', 'R21', 'R23', 'R28') or r.startswith('R17') or r.startswith('R29')])
             c2.ats = [a for a in c.ats if a[0] == 'fn_start' and 'let ghost' not in a[2]]
             text = self.apply_rewrites(raw, site, c2)
             _, loops = find_loops(split_fn(text)[1])
